@@ -177,29 +177,32 @@ def rule_n3(ck, prog, spec, S):
         else:
             ck.holds("C04-N3", st, K.loc(f), "value->base per token class as in the integer decoders")
         ck.analysed(f)
-    # lexer: letter predicate -> class -> digit recogniser
+    # lexer: letter -> class -> digit recogniser, decided by byte-wise reachability
+    from .lexmodel import LexModel
+    from . import c13
     f = prog.fn("scpiLex_NondecimalNumericData")
     if f is None:
         ck.anchor_lost("C04-N3", "scpiLex_NondecimalNumericData")
         return
-    want = {"isH": ("skipHexNum", "SCPI_TOKEN_HEXNUM"), "isQ": ("skipOctNum", "SCPI_TOKEN_OCTNUM"), "isB": ("skipBinNum", "SCPI_TOKEN_BINNUM")}
-    seen = {}
-    for ps in P.summarize(f):
-        letter = [a.get("callee") for a, pol in ps.facts if not isinstance(pol, tuple) and pol is True and a.k == "CallExpr" and a.get("callee") in want]
-        if not letter:
-            continue
-        skip = [c.get("callee") for c in ps.calls if (c.get("callee") or "").startswith("skip") and c.get("callee") != "skipChr"]
-        ty = [C.const_of(e[1].child(1)) for e in ps.events if e[0] == "store" and (C.store_target(e[1]).get("path") or "").endswith("->type")]
-        seen.setdefault(letter[-1], set()).add((tuple(skip), ty[0] if ty else None))
+    got = c13.nondecimal_letter_classes(prog, S, LexModel(prog, S))
+    want = {prog.enumconst.get("SCPI_TOKEN_HEXNUM"): ({ord("h"), ord("H")}, "skipHexNum"),
+            prog.enumconst.get("SCPI_TOKEN_OCTNUM"): ({ord("q"), ord("Q")}, "skipOctNum"),
+            prog.enumconst.get("SCPI_TOKEN_BINNUM"): ({ord("b"), ord("B")}, "skipBinNum")}
     st = K.site(f, "letter->class->digits", 0)
     bad = []
-    for l, (sk, cl) in want.items():
-        if seen.get(l) != {((sk,), prog.enumconst.get(cl))}:
-            bad.append("%s leads to %s" % (l, seen.get(l)))
+    for cls, (letters, rec) in want.items():
+        g = (got or {}).get(cls)
+        name = K.enum_name(prog, "_scpi_token_type_t", cls)
+        if g is None:
+            bad.append("no letter selects %s" % name)
+        elif g[0] != letters:
+            bad.append("%s is selected by {%s}, expected {%s}" % (name, c13.show(g[0] or set()), c13.show(letters)))
+        elif g[1] is not None and g[1] != rec:
+            bad.append("%s digits are recognised by %s, expected %s" % (name, g[1], rec))
     if bad:
         ck.violated("C04-N3", st, K.loc(f), "; ".join(bad))
     else:
-        ck.holds("C04-N3", st, K.loc(f), "#H -> hex digits/HEXNUM, #Q -> octal/OCTNUM, #B -> binary/BINNUM")
+        ck.holds("C04-N3", st, K.loc(f), "#H/h -> hex digits/HEXNUM, #Q/q -> octal/OCTNUM, #B/b -> binary/BINNUM")
     ck.analysed(f)
 
 
